@@ -30,7 +30,15 @@ package main
 // "continue", "uses:<text>", "end" (the enclosing function/loop body ends). Nested `if`s are flattened
 // by conjunction; after an `if` whose body always leaves, the negated condition is added to what
 // follows; the statements after the enclosing `if`/block are followed up to the enclosing loop or
-// function. The Lean side (`PqModel/PageReaders.lean`) evaluates the list (Kleene logic) in the
+// function. Since round 4 the list does not stop at the loop: an unlabeled `break` is followed into the
+// statements behind the loop (under the guard it was taken with); the end of the body of a
+// `for …; cond; … {}` loop becomes `(guard and cond, "iterate")` and goes on behind the loop under
+// `guard and not cond`; a `for` loop with a condition over the tracked variables that FOLLOWS the call
+// is entered under its condition (its body's loose ends are "iterate") and passed under the negation;
+// `x.f = err` (the error kept in a field) is the non-deciding step "store" (fields: readerErrorStores); `return …, other` where
+// the guards say `other != nil` is "return-other-err" (the caller fails, with another error); a
+// variable re-declared with `:=` in an inner scope is not the tracked one; function literals are
+// walked like functions. The Lean side (`PqModel/PageReaders.lean`) evaluates the list (Kleene logic) in the
 // situation "error that is neither nil nor io.EOF, page nil or not": the first step whose guard
 // holds must hand the error on. Hook calls (`verif*`) are ignored.
 
@@ -66,6 +74,9 @@ type prSite struct {
 	form    string
 	steps   []prStep
 	callPos token.Pos
+	recv    string // text of the receiver expression
+	source  string // receiverSource
+	stores  []string
 }
 
 type prCtx struct {
@@ -73,6 +84,18 @@ type prCtx struct {
 	errVar   string
 	pageVar  string
 	countVar string // value/row readers: the count result (atoms n==0, n!=0, n>0)
+	stores   []string // fields the error variable is stored in (`x.f = err`)
+}
+
+// guardSaysNonNil: the guard (RPN) contains the unknown atom `?<name> != nil` (as a conjunct or not: the
+// outcome is only named after it; the Lean evaluator explores both values of an unknown atom)
+func guardSaysNonNil(guard []string, name string) bool {
+	for _, t := range guard {
+		if t == "?"+name+" != nil" {
+			return true
+		}
+	}
+	return false
 }
 
 func rpnAnd(a, b []string) []string {
@@ -158,6 +181,87 @@ func mentionsIdent(n ast.Node, name string) bool {
 	return found
 }
 
+// definesIdent: `name` is declared by this `:=` statement
+func definesIdent(s ast.Stmt, name string) bool {
+	a, ok := s.(*ast.AssignStmt)
+	if !ok || a.Tok != token.DEFINE {
+		return false
+	}
+	for _, l := range a.Lhs {
+		if isIdent(l, name) {
+			return true
+		}
+	}
+	return false
+}
+
+// listMentionsFree / mentionsFree: the statement(s) mention the variable `name` of the enclosing scope
+// (occurrences behind a re-declaration `name := …` in an inner block are another variable)
+func listMentionsFree(list []ast.Stmt, name string) bool {
+	for _, s := range list {
+		if definesIdent(s, name) {
+			for _, rhs := range s.(*ast.AssignStmt).Rhs {
+				if mentionsIdent(rhs, name) {
+					return true
+				}
+			}
+			return false // the rest of the block sees the new variable
+		}
+		if mentionsFree(s, name) {
+			return true
+		}
+	}
+	return false
+}
+
+func mentionsFree(n ast.Node, name string) bool {
+	if n == nil || name == "" {
+		return false
+	}
+	opt := func(s ast.Stmt) bool { return s != nil && mentionsFree(s, name) }
+	switch x := n.(type) {
+	case *ast.BlockStmt:
+		if x == nil {
+			return false
+		}
+		return listMentionsFree(x.List, name)
+	case *ast.IfStmt:
+		if x.Init != nil && definesIdent(x.Init, name) {
+			return listMentionsFree([]ast.Stmt{x.Init}, name)
+		}
+		return opt(x.Init) || mentionsIdent(x.Cond, name) || mentionsFree(x.Body, name) || opt(x.Else)
+	case *ast.ForStmt:
+		if x.Init != nil && definesIdent(x.Init, name) {
+			return listMentionsFree([]ast.Stmt{x.Init}, name)
+		}
+		return opt(x.Init) || (x.Cond != nil && mentionsIdent(x.Cond, name)) || opt(x.Post) || mentionsFree(x.Body, name)
+	case *ast.RangeStmt:
+		if x.Tok == token.DEFINE && ((x.Key != nil && isIdent(x.Key, name)) || (x.Value != nil && isIdent(x.Value, name))) {
+			return mentionsIdent(x.X, name)
+		}
+		return (x.Key != nil && mentionsIdent(x.Key, name)) || (x.Value != nil && mentionsIdent(x.Value, name)) ||
+			mentionsIdent(x.X, name) || mentionsFree(x.Body, name)
+	case *ast.SwitchStmt:
+		return opt(x.Init) || (x.Tag != nil && mentionsIdent(x.Tag, name)) || mentionsFree(x.Body, name)
+	case *ast.TypeSwitchStmt:
+		return opt(x.Init) || opt(x.Assign) || mentionsFree(x.Body, name)
+	case *ast.SelectStmt:
+		return mentionsFree(x.Body, name)
+	case *ast.CaseClause:
+		for _, e := range x.List {
+			if mentionsIdent(e, name) {
+				return true
+			}
+		}
+		return listMentionsFree(x.Body, name)
+	case *ast.CommClause:
+		return opt(x.Comm) || listMentionsFree(x.Body, name)
+	case *ast.LabeledStmt:
+		return mentionsFree(x.Stmt, name)
+	}
+	return mentionsIdent(n, name)
+}
+
 func isHookCall(s ast.Stmt) bool {
 	es, ok := s.(*ast.ExprStmt)
 	if !ok {
@@ -231,17 +335,33 @@ func (c *prCtx) flatten(list []ast.Stmt, prefix []string, out *[]prStep) (termin
 					o = "return-wrapped"
 				case isIdent(last, "nil"):
 					o = "return-nil"
+				default:
+					if id, ok := last.(*ast.Ident); ok && guardSaysNonNil(prefix, id.Name) {
+						o = "return-other-err"
+					}
 				}
 			}
 			emit(prefix, o)
 			return true, prefix
 		case *ast.BranchStmt:
-			emit(prefix, strings.ToLower(x.Tok.String()))
+			o := strings.ToLower(x.Tok.String())
+			if x.Label != nil && o == "break" {
+				o = "break-to-label" // not followed
+			}
+			emit(prefix, o)
 			return true, prefix
 		case *ast.AssignStmt:
 			if assignsTo(x, c.errVar) {
 				emit(prefix, "reassign")
 				return true, prefix
+			}
+			if len(x.Lhs) == 1 && len(x.Rhs) == 1 && isIdent(x.Rhs[0], c.errVar) {
+				if sel, ok := x.Lhs[0].(*ast.SelectorExpr); ok {
+					// the error is kept in a field and execution goes on
+					emit(prefix, "store")
+					c.stores = append(c.stores, c.r.Text(sel))
+					continue
+				}
 			}
 			for _, rhs := range x.Rhs {
 				if mentionsIdent(rhs, c.errVar) {
@@ -249,6 +369,30 @@ func (c *prCtx) flatten(list []ast.Stmt, prefix []string, out *[]prStep) (termin
 					return true, prefix
 				}
 			}
+		case *ast.ForStmt:
+			if !mentionsFree(x, c.errVar) {
+				break
+			}
+			if x.Cond == nil || (x.Init != nil && mentionsFree(x.Init, c.errVar)) || (x.Post != nil && mentionsFree(x.Post, c.errVar)) {
+				if mentionsFree(x, c.errVar) {
+					emit(prefix, "uses:"+prShort(c.r.Text(s)))
+					return true, prefix
+				}
+				break
+			}
+			// a loop that is entered under a condition over the tracked variables: its body under the
+			// condition (loose ends iterate), what follows under the negation
+			cond := c.toRPN(x.Cond)
+			var inner []prStep
+			c.flatten(x.Body.List, rpnAnd(prefix, cond), &inner)
+			for _, st := range inner {
+				switch st.outcome {
+				case "end", "continue", "break":
+					st.outcome = "iterate"
+				}
+				*out = append(*out, st)
+			}
+			prefix = rpnAnd(prefix, rpnNot(cond))
 		case *ast.SelectStmt:
 			sends := false
 			for _, cl := range x.Body.List {
@@ -279,7 +423,7 @@ func (c *prCtx) flatten(list []ast.Stmt, prefix []string, out *[]prStep) (termin
 				*out = (*out)[:n-1]
 			}
 		default:
-			if mentionsIdent(s, c.errVar) {
+			if mentionsFree(s, c.errVar) {
 				emit(prefix, "uses:"+prShort(c.r.Text(s)))
 				return true, prefix
 			}
@@ -371,14 +515,26 @@ func pageReaders(r *Repo, s *Section) error {
 		return sites2[i].callPos < sites2[j].callPos
 	})
 	rows = nil
+	var recvs []string
 	for _, st := range sites2 {
 		var steps []string
 		for _, sp := range st.steps {
 			steps = append(steps, Tuple(strList(sp.guard), Str(sp.outcome)))
 		}
-		s.Comment("%s:%d %s calls %s (%s)", st.file, st.line, st.fn, st.callee, st.form)
+		s.Comment("%s:%d %s calls %s (%s) on %s [%s]", st.file, st.line, st.fn, st.callee, st.form, st.recv, st.source)
 		rows = append(rows, Tuple(Str(st.fn), Str(st.callee), Str(st.form), "["+strings.Join(steps, ", ")+"]"))
+		recvs = append(recvs, Tuple(Str(st.fn), Str(st.recv), Str(st.source)))
 	}
+	s.Comment("the reader each of those calls is made on, in the same order: (function, receiver text, source);\nsource = page-values: a local assigned `<page>.Values()` in the same function (in-memory value reader)")
+	s.Def("rowReaderReceivers", "List (String × String × String)", List(recvs))
+	var stores []string
+	for _, st := range append(append([]prSite{}, sites...), sites2...) {
+		for _, f := range st.stores {
+			stores = append(stores, Tuple(Str(st.fn), Str(st.callee), Str(f)))
+		}
+	}
+	s.Comment("(function, callee, field): where the error of such a call is kept in a field (step \"store\") before the list goes on")
+	s.Def("readerErrorStores", "List (String × String × String)", List(stores))
 	s.Comment("every call to a value / row reader (ReadValues, ReadRows, readRows) in the root package, same layout;\nextra atoms n==0 n!=0 n>0 over the count result")
 	s.Def("rowReaderCalls", "List (String × String × String × List (List String × String))", List(rows))
 	return nil
@@ -420,35 +576,88 @@ func prSitesOf(r *Repo, file string, fn *ast.FuncDecl) []prSite {
 	matched := map[token.Pos]bool{}
 	name := qualName(fn)
 	var walkList func(list []ast.Stmt, conts [][]ast.Stmt)
-	follow := func(c *prCtx, first []ast.Stmt, after []ast.Stmt, conts [][]ast.Stmt) []prStep {
+	// conts: the statement lists that follow the current block, innermost last; a nil entry marks a loop
+	// boundary (the loop statement itself is loops[index of the nil entry])
+	loops := map[int]ast.Stmt{}
+	var run func(c *prCtx, first [][]ast.Stmt, conts [][]ast.Stmt, prefix []string, depth int) []prStep
+	run = func(c *prCtx, first [][]ast.Stmt, conts [][]ast.Stmt, prefix []string, depth int) []prStep {
 		var steps []prStep
-		prefix := []string{"true"}
-		lists := [][]ast.Stmt{}
-		if first != nil {
-			lists = append(lists, first)
-		}
-		lists = append(lists, after)
-		for i := len(conts) - 1; i >= 0; i-- {
+		lists := append([][]ast.Stmt{}, first...)
+		i := len(conts) - 1
+		for ; i >= 0 && conts[i] != nil; i-- {
 			lists = append(lists, conts[i])
 		}
 		for _, l := range lists {
-			if l == nil { // loop boundary
-				break
-			}
 			if n := len(steps); n > 0 && steps[n-1].outcome == "end" {
 				steps = steps[:n-1]
 			}
 			t, p := c.flatten(l, prefix, &steps)
 			if t {
-				return steps
+				break
 			}
 			prefix = p
 		}
-		return steps
+		if len(lists) == 0 {
+			steps = append(steps, prStep{prefix, "end"})
+		}
+		if i < 0 {
+			// the function (literal) ends here: reaching its end drops the error
+			for k := range steps {
+				if steps[k].outcome == "end" {
+					steps[k].outcome = "falls-off"
+				}
+			}
+			return steps
+		}
+		if depth >= 4 {
+			return steps
+		}
+		// a loop boundary: follow the ways out of the loop into what comes behind it
+		loop := loopAt(loops, conts, i)
+		outer := conts[:i]
+		var out []prStep
+		for _, st := range steps {
+			switch st.outcome {
+			case "break":
+				out = append(out, run(c, nil, outer, st.guard, depth+1)...)
+			case "end", "continue":
+				if fs, ok := loop.(*ast.ForStmt); ok && fs.Cond != nil && (fs.Post == nil || !mentionsFree(fs.Post, c.errVar)) {
+					cond := c.toRPN(fs.Cond)
+					out = append(out, prStep{rpnAnd(st.guard, cond), "iterate"})
+					out = append(out, run(c, nil, outer, rpnAnd(st.guard, rpnNot(cond)), depth+1)...)
+				} else {
+					out = append(out, st)
+				}
+			default:
+				out = append(out, st)
+			}
+		}
+		return out
 	}
+	follow := func(c *prCtx, first []ast.Stmt, after []ast.Stmt, conts [][]ast.Stmt) []prStep {
+		var fl [][]ast.Stmt
+		if first != nil {
+			fl = append(fl, first)
+		}
+		fl = append(fl, after)
+		return run(c, fl, conts, []string{"true"}, 0)
+	}
+	var lastCtx *prCtx
 	add := func(call *ast.CallExpr, callee, form string, steps []prStep) {
 		matched[call.Pos()] = true
-		sites = append(sites, prSite{file, r.Line(call), name, callee, form, steps, call.Pos()})
+		rt, rs := receiverSource(r, fn, call)
+		var stores []string
+		if lastCtx != nil {
+			seen := map[string]bool{}
+			for _, f := range lastCtx.stores {
+				if !seen[f] {
+					seen[f] = true
+					stores = append(stores, f)
+				}
+			}
+			lastCtx = nil
+		}
+		sites = append(sites, prSite{file, r.Line(call), name, callee, form, steps, call.Pos(), rt, rs, stores})
 	}
 	lhsVars := func(a *ast.AssignStmt) (pageVar, errVar string) {
 		if n := len(a.Lhs); n > 0 {
@@ -479,7 +688,9 @@ func prSitesOf(r *Repo, file string, fn *ast.FuncDecl) []prSite {
 						add(c, callee, "blank", nil)
 					} else {
 						ctx := newPrCtx(r, ev, pv, callee)
-						add(c, callee, "assign", follow(ctx, nil, after, conts))
+						steps := follow(ctx, nil, after, conts)
+						lastCtx = ctx
+						add(c, callee, "assign", steps)
 					}
 				}
 			}
@@ -498,7 +709,9 @@ func prSitesOf(r *Repo, file string, fn *ast.FuncDecl) []prSite {
 					} else {
 						ctx := newPrCtx(r, ev, pv, callee)
 						bare := &ast.IfStmt{If: x.If, Cond: x.Cond, Body: x.Body, Else: x.Else}
-						add(c, callee, "if-init", follow(ctx, []ast.Stmt{bare}, after, conts))
+						steps := follow(ctx, []ast.Stmt{bare}, after, conts)
+						lastCtx = ctx
+						add(c, callee, "if-init", steps)
 					}
 				}
 			}
@@ -512,8 +725,10 @@ func prSitesOf(r *Repo, file string, fn *ast.FuncDecl) []prSite {
 		case *ast.BlockStmt:
 			walkList(x.List, inner)
 		case *ast.ForStmt:
+			loops[len(inner)] = x
 			walkList(x.Body.List, append(inner[:len(inner):len(inner)], nil))
 		case *ast.RangeStmt:
+			loops[len(inner)] = x
 			walkList(x.Body.List, append(inner[:len(inner):len(inner)], nil))
 		case *ast.SwitchStmt:
 			for _, cl := range x.Body.List {
@@ -543,17 +758,60 @@ func prSitesOf(r *Repo, file string, fn *ast.FuncDecl) []prSite {
 		}
 	}
 	walkList(fn.Body.List, nil)
-	// anything the statement patterns did not see (go/defer, nested in an expression, in a closure)
+	// function literals: each body is walked like a function of its own (the statement walker does not
+	// descend into expressions, so every literal — nested ones included — is walked exactly once)
+	ast.Inspect(fn.Body, func(n ast.Node) bool {
+		if lit, ok := n.(*ast.FuncLit); ok && lit.Body != nil {
+			walkList(lit.Body.List, nil)
+		}
+		return true
+	})
+	// anything the statement patterns did not see (go/defer, nested in an expression)
 	ast.Inspect(fn.Body, func(n ast.Node) bool {
 		if e, ok := n.(ast.Expr); ok {
 			if c, callee := isReaderCall(e); c != nil && !matched[c.Pos()] {
 				matched[c.Pos()] = true
-				sites = append(sites, prSite{file, r.Line(c), name, callee, "other:" + r.Text(c), nil, c.Pos()})
+				rt, rs := receiverSource(r, fn, c)
+				sites = append(sites, prSite{file, r.Line(c), name, callee, "other:" + r.Text(c), nil, c.Pos(), rt, rs, nil})
 			}
 		}
 		return true
 	})
 	return sites
+}
+
+func loopAt(loops map[int]ast.Stmt, conts [][]ast.Stmt, i int) ast.Stmt { return loops[i] }
+
+// receiverSource: where the reader a value/row-reader call is made on comes from — "page-values" when
+// it is a local variable assigned `<x>.Values()` in the same function (the value reader of a page that
+// is already loaded, verified and decoded: it ends with io.EOF and nothing else), otherwise the text
+// of the receiver expression
+func receiverSource(r *Repo, fn *ast.FuncDecl, call *ast.CallExpr) (string, string) {
+	sel, ok := call.Fun.(*ast.SelectorExpr)
+	if !ok {
+		return "", "function"
+	}
+	text := r.Text(sel.X)
+	id, ok := sel.X.(*ast.Ident)
+	if !ok {
+		return text, "expr"
+	}
+	src := "variable"
+	ast.Inspect(fn.Body, func(n ast.Node) bool {
+		a, ok := n.(*ast.AssignStmt)
+		if !ok || len(a.Lhs) != 1 || len(a.Rhs) != 1 || !isIdent(a.Lhs[0], id.Name) || a.Pos() > call.Pos() {
+			return true
+		}
+		if c, ok := a.Rhs[0].(*ast.CallExpr); ok {
+			if s2, ok := c.Fun.(*ast.SelectorExpr); ok && s2.Sel.Name == "Values" && len(c.Args) == 0 {
+				src = "page-values"
+				return true
+			}
+		}
+		src = "variable"
+		return true
+	})
+	return text, src
 }
 
 // prShort keeps the head of a statement's text (the outcome only has to be recognisable)
